@@ -9,7 +9,7 @@
     recursion over the recorded frames (ViterbiTrace.tla): reported score = optimum; with default / narrow beams:
     reported score <= optimum.
 """
-import json, os, random
+import re, json, os, random
 from vlib import sut, tlc, tracecheck, runner
 from checks import decmatrix, c02_history
 
@@ -36,6 +36,10 @@ SHAPES = [
     "public <s> = (go | ten | forward | left) (thirty | wander | you | around | office | understand | eleven | say);",
     "public <s> = (forward | go) (W0 | W1 | W2 | W3 | W4 | W5 | W6 | W7) (ten | W8 | W9);",
     "public <s> = (W0 | W1 | go) (W2 | W3 | W4 | meters) [W5 | W6];",
+    # run-time words of ONE phone that is also the first phone of a dictionary word standing where silence or the start of
+    # the utterance is its left context (the one-phone word's context tables and the word-initial ones are neighbours)
+    "public <s> = (meters | forward | P_M | P_F) (ten | go | P_T | P_G);",
+    "public <s> = (P_G | go | ten | P_T) (P_M | meters | hundred) [P_T_EH | ten | the];",
 ]
 PHONES = ["AA", "AE", "AH", "AO", "AW", "AY", "B", "CH", "D", "DH", "EH", "ER", "EY", "F", "G", "HH", "IH", "IY", "JH", "K", "L", "M", "N",
           "NG", "OW", "OY", "P", "R", "S", "SH", "T", "TH", "UH", "UW", "V", "W", "Y", "Z", "ZH"]
@@ -52,7 +56,16 @@ def runtime_words(rng, g):
         w = "zzw%d" % k
         g = g.replace("W%d" % k, w)
         lines.append("addword %s %s 0" % (w.encode().hex(), " ".join(pron).encode().hex()))
+        if k % 3 == 0:      # ... and two to four more pronunciations of it (every one of them belongs to the network)
+            for a in range(2, rng.choice([3, 4, 5]) + 1):
+                pa = [rng.choice(PHONES) for _ in range(rng.choice([1, 2, 3, 4]))]
+                lines.append("addword %s %s 0" % (("%s(%d)" % (w, a)).encode().hex(), " ".join(pa).encode().hex()))
         k += 1
+    # P_<PH>[_<PH>...]: a run-time word with exactly that pronunciation
+    for m in sorted(set(re.findall(r"P(?:_[A-Z]+)+", g)), key=len, reverse=True):
+        w = "zz" + m.lower().replace("_", "")
+        g = re.sub(r"\b%s\b" % m, w, g)
+        lines.append("addword %s %s 0" % (w.encode().hex(), " ".join(m.split("_")[1:]).encode().hex()))
     return lines, g
 AUDIOS = ["head", "mid", "t5", "t4", "cut", "tail"]
 
